@@ -18,6 +18,8 @@
 (*   "field"  UnifyRecordField(t1, f, t2) twice                            *)
 (*   "shared" as "pair", but t1, t2 mention <<"var", i>>: one reference    *)
 (*            object per variable (bounds[i] is its initial target)        *)
+(*   "seq"    ops |-> <<operation, ...>> of TypeAlgebraStore on references  *)
+(*            t1..tn: Unify, CloseRecord, UnifyRecordField; obs per step   *)
 (* One TLC state per case.  A failing case prints                          *)
 (*   <<"V", ToJson([id, fails |-> <<[clause, exp, got], ...>>])>>          *)
 (* and the POSTCONDITION requires that none failed and every case was      *)
@@ -279,12 +281,67 @@ CountShared(c) ==
      /\ BumpIf(~IsBot(r) /\ r # up, 53)       \* sharing refined the result
 
 (***************************************************************************)
+(* seq: an operation sequence TLC enumerated in TypeAlgebraStore, replayed *)
+(* on real references.  c.t = initial terms, c.ops = the operations (the   *)
+(* value of a "field" operation is a raw term), obs[s] = renderings of all *)
+(* references after operation s.  After every clash-free step every        *)
+(* reference must render the value its class denotes in the store model    *)
+(* (so aliases render identically, whichever of them was closed); at the   *)
+(* first clash the references the call was made on must show it; nothing   *)
+(* is claimed afterwards.                                                  *)
+(***************************************************************************)
+SeqOp(op) == IF op[1] = "field" THEN <<"field", op[2], op[3], Canon(op[4])>> ELSE op
+
+RECURSIVE JudgeSeqFrom(_, _, _)
+JudgeSeqFrom(c, st, s) ==
+  IF s > Len(c.ops) THEN <<>>
+  ELSE
+    LET run == c.runs[1]
+        op  == SeqOp(c.ops[s])
+        nx  == StoreApply(st, op)
+        got == Step(run, s)
+    IN IF ~OpEnabled(st, op) THEN Fail(FALSE, "input_wellformed", s, op)
+       ELSE IF StoreClash(nx)
+       THEN Fail(IsBot(got[op[2]]) /\ (op[1] = "unify" => IsBot(got[op[3]])),
+                 "seq_clash_iff_no_common_instance", <<s, nx.val>>, got)
+       ELSE Fail(got = nx.val, "seq_step_equals_store", <<s, nx.val>>, got)
+            \o JudgeSeqFrom(c, nx, s + 1)
+
+JudgeSeq(c) ==
+  Fail(InputsOk(c, 0) /\ Len(c.runs[1].obs) = Len(c.ops), "input_wellformed", "", "")
+  \o JudgeSeqFrom(c, StoreInit([k \in DOMAIN c.t |-> T(c.t[k])]), 1)
+
+\* Coverage of the sequences (walks the same store model).
+RECURSIVE SeqFacts(_, _, _, _)
+SeqFacts(c, st, s, acc) ==     \* acc = <<close on alias, close in class of 3,
+                               \*         clash against a closed record, clash>>
+  IF s > Len(c.ops) \/ StoreClash(st) THEN acc
+  ELSE
+    LET op == SeqOp(c.ops[s])
+        nx == StoreApply(st, op)
+        sz == Cardinality(ClassOf(st, op[2]))
+        cl == IsRec(st.val[op[2]]) /\ st.val[op[2]][2] = "closed"
+        c2 == op[1] = "unify" /\ IsRec(st.val[op[3]]) /\ st.val[op[3]][2] = "closed"
+    IN SeqFacts(c, nx, s + 1,
+         <<acc[1] \/ (op[1] = "close" /\ sz >= 2),
+           acc[2] \/ (op[1] = "close" /\ sz >= 3),
+           acc[3] \/ (StoreClash(nx) /\ (cl \/ c2)),
+           acc[4] \/ StoreClash(nx)>>)
+
+CountSeq(c) ==
+  LET f == SeqFacts(c, StoreInit([k \in DOMAIN c.t |-> T(c.t[k])]), 1,
+                    <<FALSE, FALSE, FALSE, FALSE>>)
+  IN Bump(55) /\ BumpIf(f[1], 56) /\ BumpIf(f[2], 57) /\ BumpIf(f[3], 58)
+     /\ BumpIf(~f[4], 59) /\ BumpIf(Len(c.t) = 3, 60)
+
+(***************************************************************************)
 Judge(c) ==
   CASE c.k = "pair"   -> JudgePair(c)
     [] c.k = "triple" -> JudgeTriple(c)
     [] c.k = "elem"   -> JudgeElem(c)
     [] c.k = "field"  -> JudgeField(c)
     [] c.k = "shared" -> JudgeShared(c)
+    [] c.k = "seq"    -> JudgeSeq(c)
     [] OTHER          -> Fail(FALSE, "unknown_kind", "", c.k)
 
 Count(c) ==
@@ -293,6 +350,7 @@ Count(c) ==
     [] c.k = "elem"   -> CountElem(c)
     [] c.k = "field"  -> CountField(c)
     [] c.k = "shared" -> CountShared(c)
+    [] c.k = "seq"    -> CountSeq(c)
     [] OTHER          -> TRUE
 
 Registers == 1..60
